@@ -138,6 +138,19 @@ def const_value(e: ast.AST | None):
         return True, ast.literal_eval(e)
     except Exception:
         pass
+    if isinstance(e, ast.Call) and isinstance(e.func, ast.Name) and \
+            e.func.id in ('frozenset', 'tuple', 'set', 'list') and \
+            len(e.args) <= 1 and not e.keywords:
+        if not e.args:
+            return True, {'frozenset': frozenset(), 'tuple': (),
+                          'set': set(), 'list': []}[e.func.id]
+        ok, v = const_value(e.args[0])
+        if ok:
+            try:
+                return True, {'frozenset': frozenset, 'tuple': tuple,
+                              'set': set, 'list': list}[e.func.id](v)
+            except Exception:
+                return False, None
     if isinstance(e, ast.BinOp) and isinstance(e.op, (ast.Add, ast.Mod)):
         a, av = const_value(e.left)
         b, bv = const_value(e.right)
